@@ -3,8 +3,9 @@
 N=$1; P=$2; T=${3:-quick}
 cd /repo && git diff --quiet || { echo "/repo not clean"; exit 9; }
 git -C /repo apply /verif/seeded/$N/patch.diff || exit 9
+cp /verif/evidence/$P.json /tmp/ev_$P.bak 2>/dev/null
 cd /verif && python3 check.py $P --tier $T; rc=$?
 git -C /repo checkout -- .
 # do not keep the evidence of a mutated run
-git -C /verif checkout -- evidence/$P.json 2>/dev/null
+cp /tmp/ev_$P.bak /verif/evidence/$P.json 2>/dev/null
 echo "seed $N property $P tier $T => exit $rc"
